@@ -2741,6 +2741,9 @@ impl Server {
                         deactivate, e
                     );
                 }
+                // The socket is gone: a readiness remembered while the accept
+                // gate was closed must not be replayed against this token later.
+                self.accept_ready.remove(&ListenToken(token.0));
 
                 {
                     let mut sessions = self.sessions.borrow_mut();
@@ -2789,6 +2792,9 @@ impl Server {
                         deactivate, e
                     );
                 }
+                // The socket is gone: a readiness remembered while the accept
+                // gate was closed must not be replayed against this token later.
+                self.accept_ready.remove(&ListenToken(token.0));
                 if self.sessions.borrow().slab.contains(token.0) {
                     self.sessions.borrow_mut().slab.remove(token.0);
                     info!("removed listen token {:?}", token);
@@ -2831,6 +2837,9 @@ impl Server {
                         deactivate, e
                     );
                 }
+                // The socket is gone: a readiness remembered while the accept
+                // gate was closed must not be replayed against this token later.
+                self.accept_ready.remove(&ListenToken(token.0));
                 if self.sessions.borrow().slab.contains(token.0) {
                     self.sessions.borrow_mut().slab.remove(token.0);
                     info!("removed listen token {:?}", token);
@@ -2873,6 +2882,9 @@ impl Server {
                         deactivate, e
                     );
                 }
+                // The socket is gone: a readiness remembered while the accept
+                // gate was closed must not be replayed against this token later.
+                self.accept_ready.remove(&ListenToken(token.0));
                 if self.sessions.borrow().slab.contains(token.0) {
                     self.sessions.borrow_mut().slab.remove(token.0);
                     info!("removed listen token {:?}", token);
